@@ -67,15 +67,17 @@ def check(ctx):
     obs = conform.run_units(ctx, judge, units)
     ctx.phase("class-constancy of the observed (cost, depth) per (configuration, component)")
     seen = {}
-    for n, conn, comp, vals, cid in obs:
+    for n, conn, comp, vals, cid, strs, fmt in obs:
         key = (n, conn, comp)
         ctx.count("observations")
         if key not in seen:
-            seen[key] = (vals, cid)
-        elif seen[key] != (vals, cid):
-            ctx.violation({"kind": "inconstant", "n": n, "conn": conn, "component": comp},
-                          "inconstant: n=%d %s component %d: (cost, depth, id) observations %r and %r for local-Clifford equivalent states"
-                          % (n, conn, comp, seen[key], (vals, cid)))
+            seen[key] = (vals, cid, strs, fmt)
+        elif seen[key][:2] != (vals, cid):
+            first = seen[key]
+            ctx.violation({"kind": "inconstant", "n": n, "conn": conn, "component": comp,
+                           "a": {"gens": first[2], "fmt": first[3]}, "b": {"gens": strs, "fmt": fmt}},
+                          "inconstant: n=%d %s: local-Clifford equivalent states %s (%s) and %s (%s) get (cost, depth) per API %r / id %d and %r / id %d"
+                          % (n, conn, first[2], first[3], strs, fmt, first[0], first[1], vals, cid))
     ctx.count("components_observed", len(seen))
     ctx.count("transitions", ctx.counters.get("api_cases", 0))
     ctx.exhaustive = False
@@ -113,14 +115,17 @@ def replay_entry(body):
 
 
 def replay_inconstant(body):
-    """Re-observe the first few members of the component."""
-    n, conn, comp = body["n"], body["conn"], body["component"]
+    """Re-observe the two recorded members of the component and compare."""
+    n, conn = body["n"], body["conn"]
     g = B.sg(n)
-    vals = set()
-    for i in g.members(comp, limit=40):
-        _, ob = judge(n, conn, g.gens(int(i)), "matrices", None)
-        vals.add((ob[3], ob[4]))
-    return None if len(vals) == 1 else "observations %r" % sorted(vals, key=str)
+    obs = []
+    for side in ("a", "b"):
+        gens = M.parse_gens(body[side]["gens"])
+        _, ob = judge(n, conn, gens, body[side]["fmt"], None)
+        obs.append((ob[3], ob[4], g.component_of_gens(gens)))
+    if obs[0][2] != obs[1][2]:
+        raise core.HarnessError("the two states are not in the same model component")
+    return None if obs[0][:2] == obs[1][:2] else "observations %r vs %r for local-Clifford equivalent states" % (obs[0][:2], obs[1][:2])
 
 
 REPLAY = {"case": replay_case, "entry": replay_entry, "inconstant": replay_inconstant}
